@@ -17,6 +17,25 @@ BELOW = 1 - 2.0 ** -40
 def _events(sa, config):
     """selected set S (benefit 1) of size <= s with: others 0 | others just below the margin |
     one further interval exactly at the margin | one further interval just below the margin"""
+    if config.get("towards"):
+        return [[list(x) + [1.0] for x in ev] for ev in dw.events_towards(sa, config["towards"])]
+    if config.get("halflines"):
+        # one-sided bulk refinement (all intervals right/left of a cut), optionally together with one further interval: the
+        # histories that unbalance the tree and make the rebalancing rotate freshly refined deep subtrees
+        out, seen = [], set()
+        iv = dw.intervals(sa)
+        for d in range(sa.dim):
+            ivd = [x for x in iv if x[0] == d]
+            for k in range(len(ivd)):
+                for bulk in (ivd[k:], ivd[:k + 1]):
+                    rest = [x for x in ivd if x not in bulk]
+                    for extra in [None] + rest:
+                        ev = bulk + ([extra] if extra else [])
+                        key = tuple(sorted(ev))
+                        if key not in seen:
+                            seen.add(key)
+                            out.append([list(x) + [1.0] for x in ev])
+        return out
     iv = dw.intervals(sa)
     m = config["margin"]
     s = config["s"]
@@ -65,9 +84,14 @@ def run_case(case):
 def configs(tier):
     out = []
 
-    def add(d, lmax, margin, reb, safety, D, s, version=6, boundary=True):
-        out.append(({"d": d, "lmin": 1, "lmax": lmax, "version": version, "rebalancing": reb, "boundary": boundary,
-                     "margin": margin, "safety": safety, "s": s}, D))
+    def add(d, lmax, margin, reb, safety, D, s, version=6, boundary=True, towards=None, halflines=False):
+        c = {"d": d, "lmin": 1, "lmax": lmax, "version": version, "rebalancing": reb, "boundary": boundary,
+             "margin": margin, "safety": safety, "s": s}
+        if towards:
+            c["towards"] = towards
+        if halflines:
+            c["halflines"] = True
+        out.append((c, D))
     if tier == "quick":
         for margin in (0.5, 0.9, 1.0):
             add(2, 2, margin, True, 0.1, 2, 1)
@@ -78,7 +102,22 @@ def configs(tier):
         add(2, 3, 0.9, True, 0.0, 1, 1)
         add(3, 2, 0.9, True, 0.1, 1, 1)
         add(1, 2, 0.5, True, 0.0, 3, 1)
+        for safety in (0.0, 0.1, 0.5):
+            add(2, 2, 0.9, True, safety, 6, 1, towards=[[0.3, 0.3], [0.3, 0.8]])
+            add(1, 2, 0.9, True, safety, 8, 1, towards=[[0.3], [0.34], [0.9]])
+        add(2, 3, 0.9, True, 0.1, 5, 1, towards=[[0.3, 0.3], [0.34, 0.8]])
+        add(3, 2, 0.9, True, 0.1, 4, 1, towards=[[0.3, 0.3, 0.3]])
+        add(1, 2, 0.9, True, 0.1, 3, 1, halflines=True)
     else:
+        for safety in (0.0, 0.1, 0.5):
+            add(1, 2, 0.9, True, safety, 3, 1, halflines=True)
+        add(1, 3, 0.9, True, 0.1, 2, 1, halflines=True)
+        add(2, 2, 0.9, True, 0.1, 2, 1, halflines=True)
+        for safety in (0.0, 0.1, 0.5):
+            add(2, 2, 0.9, True, safety, 7, 1, towards=[[0.3, 0.3], [0.3, 0.8], [0.34, 0.1]])
+            add(1, 2, 0.9, True, safety, 10, 1, towards=[[0.3], [0.34], [0.9]])
+            add(2, 3, 0.9, True, safety, 6, 1, towards=[[0.3, 0.3], [0.34, 0.8]])
+        add(3, 2, 0.9, True, 0.1, 5, 1, towards=[[0.3, 0.3, 0.3], [0.8, 0.3, 0.6]])
         for margin in (0.5, 0.9, 1.0):
             for reb in (True, False):
                 add(2, 2, margin, reb, 0.1, 2, 2)
@@ -100,8 +139,8 @@ def main(ctx):
                                       "margin": 0.9, "safety": 0.1, "s": 1},
                            "history": [[[0, 0.0, 0.25, 1.0]], [[0, 0.0, 0.125, 1.0], [1, 0.5, 0.75, 0.9]]]})
     for config, D in configs(ctx.tier):
-        tag = "d%d_lmax%d_m%s_reb%d_sf%s_D%d_s%d" % (config["d"], config["lmax"], config["margin"], config["rebalancing"],
-                                                    config["safety"], D, config["s"])
+        tag = "d%d_lmax%d_m%s_reb%d_sf%s_D%d_s%d%s" % (config["d"], config["lmax"], config["margin"], config["rebalancing"],
+                                                      config["safety"], D, config["s"], "_towards" if config.get("towards") else ("_halflines" if config.get("halflines") else ""))
         ctx.bounds[tag] = core.bfs(ctx, config, D, tag=tag)
     return ctx.finish(
         rule="state = per-dimension interval lists reached by a history of benefit assignments; events = selected set S "
